@@ -6,7 +6,7 @@ From MSDM Require Import base.Num base.NumInst base.NumR base.Transfer model.MDP
 Import ListNotations.
 Local Open Scope R_scope.
 
-Definition all_true : list bool := [true; true; true; true; true; true; true].
+Definition all_true : list bool := [true; true; true; true; true; true; true; true].
 
 Section Main.
 Variables (nS nA : nat) (P Rw : list (list (list Q))) (av : list (list bool)) (ab : list bool)
@@ -26,8 +26,11 @@ Proof. unfold mR, oR, tR. rewrite <- c01_check_transfer. exact Hchk. Qed.
 
 Lemma clauses :
   wfb mR = true /\ c_abs mR oR = true /\ c_mask mR oR tR = true /\ c_res mR oR tR = true /\
-  c_q mR oR tR = true /\ c_pol mR oR tR = true /\ c_init mR oR tR = true.
-Proof. pose proof chkR as H. unfold c01_check, all_true in H. inversion H. repeat split; reflexivity. Qed.
+  c_q mR oR tR = true /\ c_pol mR oR tR = true /\ c_init mR oR tR = true /\ c_polu mR oR tR = true.
+Proof.
+  pose proof chkR as H. unfold c01_check, all_true in H.
+  injection H as E1 E2 E3 E4 E5 E6 E7 E8. repeat split; assumption.
+Qed.
 
 Lemma mR_wf : wf mR.
 Proof. apply wfb_wf. apply clauses. Qed.
@@ -86,7 +89,7 @@ Qed.
 
 Theorem main_initial_value :
   Rabs (oInit oR - sumf nS (fun s => init mR s * oV oR s)) <= Q2R (itol tl).
-Proof. destruct clauses as (_ & _ & _ & _ & _ & _ & H). apply (c01_initial_value mR oR tR H). Qed.
+Proof. destruct clauses as (_ & _ & _ & _ & _ & _ & H & _). apply (c01_initial_value mR oR tR H). Qed.
 
 (* the placeholder clause (only bites when gamma >= 1) *)
 Theorem main_placeholder s :
@@ -94,6 +97,17 @@ Theorem main_placeholder s :
 Proof.
   intros Hs Hu. destruct clauses as (_ & _ & H & _). unfold c_mask in H.
   rewrite forallbn_spec in H. specialize (H s Hs). rewrite Hu in H. now apply neqb_Req in H.
+Qed.
+
+(* at a placeholder state (gamma >= 1) the policy row is a distribution over the available actions *)
+Theorem main_placeholder_policy s :
+  (s < nS)%nat -> unable_to_reach mR s = true -> absorbing mR s = false ->
+  (forall a, (a < nA)%nat -> 0 < oPi oR s a -> avail mR s a = true) /\
+  Rabs (sumf nA (oPi oR s) - 1) <= Q2R (ptol tl).
+Proof.
+  intros Hs Hu Hab. destruct clauses as (_ & _ & _ & _ & _ & _ & _ & Hpol).
+  apply (c_pol_placeholder mR oR tR s Hpol Hs); [|exact Hab].
+  unfold masked. rewrite Hu. reflexivity.
 Qed.
 
 End Main.
